@@ -188,8 +188,14 @@ func (s *Schema) ValidateData(data []byte) error {
 		err error
 	)
 
+	// keep numbers as they are, a float64 cannot represent every integer
+	useNumber := func(d *json.Decoder) *json.Decoder {
+		d.UseNumber()
+		return d
+	}
+
 	if !bytes.HasPrefix(bytes.TrimSpace(data), []byte{'{'}) {
-		err = yaml.Unmarshal(data, &doc)
+		err = yaml.Unmarshal(data, &doc, useNumber)
 		if err != nil {
 			return fmt.Errorf("failed to YAML unmarshal data for validation: %w", err)
 		}
@@ -200,7 +206,7 @@ func (s *Schema) ValidateData(data []byte) error {
 	} else {
 		// the content checks below apply to JSON data just the same; if this
 		// fails to parse, the schema validation reports it
-		_ = json.Unmarshal(data, &doc)
+		_ = useNumber(json.NewDecoder(bytes.NewReader(data))).Decode(&doc)
 	}
 
 	if err := s.validate(schema.NewBytesLoader(data)); err != nil {
